@@ -1060,6 +1060,9 @@ func (e *Eng) finish(fr *Frame) {
 		t := e.evalClause(c, st, e.entry, results, nil)
 		lab := c.Label
 		e.oblige(st, "ensures", lab, propsOf(c, e), t, nil, "postcondition: "+c.Expr)
+		if !e.collect && len(e.obls) > 0 && e.obls[len(e.obls)-1].Kind == "ensures" {
+			e.obls[len(e.obls)-1].SpecFn = c.SpecFn
+		}
 	}
 	for _, key := range e.fc.Implements {
 		ic := e.w.Contracts[key]
